@@ -404,4 +404,12 @@ example : deliveries [.register 7 [1], .arrive (sh 1 1), .cancel 7, .arrive (sh 
     ∧ deliveries [.register 7 [1], .arrive (sh 1 1), .cancel 7, .watchdog, .arrive (sh 1 4), .register 9 [1], .arrive (sh 1 6)] 9
       = [sh 1 4, sh 1 6] := by decide
 
+/-- request ids are EXACT byte strings (`string(content.RequestId)`, `c13_code_shape`): `07` and `0007` – the
+same number under any fixed-width re-encoding – are two requests with two slots; `no_crossover` is about the
+exact id.  (Seed C13g-1 keyed the maps by the id padded to 32 bytes: shares of one crossed over to the other.) -/
+example : deliveries [.register 1 [7], .arrive ⟨[0, 7], 1⟩, .arrive ⟨[7], 2⟩, .register 2 [0, 7], .arrive ⟨[7], 4⟩, .arrive ⟨[], 5⟩] 1
+      = [⟨[7], 2⟩, ⟨[7], 4⟩]
+    ∧ deliveries [.register 1 [7], .arrive ⟨[0, 7], 1⟩, .arrive ⟨[7], 2⟩, .register 2 [0, 7], .arrive ⟨[7], 4⟩, .arrive ⟨[], 5⟩] 2
+      = [⟨[0, 7], 1⟩] := by decide
+
 end Dos.Props.C13
